@@ -24,7 +24,8 @@ Bad(key) == PrintT(<<"VERIF-BAD", l, key>>)
 
 Signer ==
     LET tl == sc.tl
-        latest == IF tl.two THEN [serial |-> 2, base |-> 1, nb |-> tl.nb2, na |-> tl.na2, grace |-> tl.grace, roots |-> {2}]
+        latest == IF tl.two THEN [serial |-> 2, base |-> 1, nb |-> tl.nb2, na |-> tl.na2, grace |-> tl.grace,
+                               roots |-> IF tl.keep THEN {1} ELSE {2}]
                   ELSE [serial |-> 1, base |-> 1, nb |-> tl.nb1, na |-> tl.na1, grace |-> 0, roots |-> {1}]
         pred == [serial |-> 1, base |-> 1, nb |-> tl.nb1, na |-> tl.na1, grace |-> 0, roots |-> {1}]
         known == \A i \in 1..Len(R.chain) : R.chain[i] >= 1 /\ R.chain[i] <= Len(pool)
